@@ -283,6 +283,7 @@ func (it *interp) inline(s *state, f frameID, fn *ssa.Function, x *ssa.Call, cal
 	rets := it.retStack[len(it.retStack)-1]
 	it.retStack = it.retStack[:len(it.retStack)-1]
 	out := &state{}
+	canProject := len(callee.AnonFuncs) == 0
 	for _, d := range rets {
 		switch {
 		case len(d.rets) == 1:
@@ -291,7 +292,13 @@ func (it *interp) inline(s *state, f frameID, fn *ssa.Function, x *ssa.Call, cal
 			d.vals[valKey{f, x}] = rep{kind: kTuple, tuple: d.rets}
 		}
 		d.rets = nil
+		if canProject {
+			it.project(d, cf)
+		}
 		out.ds = append(out.ds, d)
+	}
+	if canProject && len(out.ds) > 1 {
+		out = it.dedupe(out)
 	}
 	// summarise: callee-internal path distinctions rarely matter to the caller; keep at most
 	// retCap disjuncts (reduce never merges an error return with a success return if avoidable)
